@@ -1,1 +1,169 @@
-fn main(){}
+//! borsh configuration of C18: the subject is built with its optional `borsh` feature and every
+//! serializable type is round-tripped through borsh::to_vec / from_slice.
+//! pwborsh C18 <quick|thorough> <partfile>   exit 0 / 1;   pwborsh C18 replay <file>
+use borsh::{BorshDeserialize, BorshSerialize};
+use piecewise_polynomial::*;
+use serde_json::{json, Value};
+use xplore::*;
+
+fn alphabet() -> Vec<f64> {
+    vec![0.0, -0.0, 5e-324, -2.2250738585072014e-308, 1.0, exact_succ(1.0), 0.1, -0.3333333333333333, 1e300, f64::MAX, -f64::MAX, f64::INFINITY, f64::NEG_INFINITY]
+}
+fn exact_succ(x: f64) -> f64 {
+    f64::from_bits(x.to_bits() + 1)
+}
+const CUBE: [f64; 3] = [-0.0, 5e-324, f64::MAX];
+const BG: [f64; 4] = [1.5, -2.25, 0.1, 1e-7];
+
+trait Nums: Sized {
+    const N: usize;
+    fn nums(&self) -> Vec<f64>;
+    fn from_nums(v: &[f64]) -> Self;
+}
+macro_rules! nums_poly { ($($t:ident $n:expr),*) => {$(
+    impl Nums for $t { const N: usize = $n; fn nums(&self) -> Vec<f64> { self.0.to_vec() } fn from_nums(v: &[f64]) -> Self { let mut a = [0.0; $n]; a.copy_from_slice(&v[..$n]); $t(a) } }
+)*}; }
+impl Nums for Poly0 { const N: usize = 1; fn nums(&self) -> Vec<f64> { vec![self.0] } fn from_nums(v: &[f64]) -> Self { Poly0(v[0]) } }
+nums_poly!(Poly1 2, Poly2 3, Poly3 4, Poly4 5, Poly5 6, Poly6 7, Poly7 8, Poly8 9);
+impl<T: Nums> Nums for Log<T> { const N: usize = T::N; fn nums(&self) -> Vec<f64> { self.0.nums() } fn from_nums(v: &[f64]) -> Self { Log(T::from_nums(v)) } }
+impl<T: Nums> Nums for IntOfLog<T> { const N: usize = T::N + 1; fn nums(&self) -> Vec<f64> { let mut v = vec![self.k]; v.extend(self.poly.nums()); v } fn from_nums(v: &[f64]) -> Self { IntOfLog { k: v[0], poly: T::from_nums(&v[1..]) } } }
+impl Nums for IntOfLogPoly4 { const N: usize = 6; fn nums(&self) -> Vec<f64> { vec![self.k, self.coeffs[0], self.coeffs[1], self.coeffs[2], self.coeffs[3], self.u] } fn from_nums(v: &[f64]) -> Self { IntOfLogPoly4 { k: v[0], coeffs: [v[1], v[2], v[3], v[4]], u: v[5] } } }
+impl Nums for Knot { const N: usize = 2; fn nums(&self) -> Vec<f64> { vec![self.x, self.y] } fn from_nums(v: &[f64]) -> Self { Knot { x: v[0], y: v[1] } } }
+impl<T: Nums> Nums for Segment<T> { const N: usize = T::N + 1; fn nums(&self) -> Vec<f64> { let mut v = vec![self.end]; v.extend(self.poly.nums()); v } fn from_nums(v: &[f64]) -> Self { Segment { end: v[0], poly: T::from_nums(&v[1..]) } } }
+
+type Run = Box<dyn Fn(&[f64]) -> Result<(), (String, Value)>>;
+struct Case { ty: String, n: usize, run: Run }
+
+fn verdict<T: PartialEq>(orig: &T, back: Result<Result<T, String>, String>, on: &[f64], nm: impl Fn(&T) -> Vec<f64>) -> Result<(), (String, Value)> {
+    match back {
+        Err(p) => Err((format!("borsh round trip panicked: {p}"), json!(p))),
+        Ok(Err(e)) => Err((format!("borsh round trip failed: {e}"), json!(e))),
+        Ok(Ok(b)) => {
+            let got = nm(&b);
+            if got.len() != on.len() || got.iter().zip(on).any(|(a, b)| a.to_bits() != b.to_bits()) {
+                return Err(("borsh: a number changed in the round trip".into(), json!({"decoded": fjs(&got)})));
+            }
+            if &b != orig { return Err(("borsh: decoded value is not == the original".into(), json!({"decoded": fjs(&got)}))); }
+            Ok(())
+        }
+    }
+}
+fn trip<T: BorshSerialize + BorshDeserialize>(v: &T) -> Result<T, String> {
+    let b = borsh::to_vec(v).map_err(|e| format!("serialize: {e}"))?;
+    borsh::from_slice::<T>(&b).map_err(|e| format!("deserialize: {e}"))
+}
+fn form_case<T: Nums + BorshSerialize + BorshDeserialize + PartialEq + 'static>(ty: String) -> Case {
+    Case { ty, n: T::N, run: Box::new(|nums| { let v = T::from_nums(nums); let r = guard(|| trip(&v)); verdict(&v, r, nums, |b| b.nums()) }) }
+}
+fn pw_case<T: Nums + BorshSerialize + BorshDeserialize + PartialEq + 'static>(ty: String, pieces: usize) -> Case {
+    Case { ty: format!("Piecewise<{ty}> with {pieces} segments"), n: pieces * (T::N + 1), run: Box::new(|nums| {
+        let v = Piecewise { segments: nums.chunks(T::N + 1).map(|c| Segment::<T>::from_nums(c)).collect::<Vec<_>>() };
+        let r = guard(|| trip(&v));
+        verdict(&v, r, nums, |b| b.segments.iter().flat_map(|s| s.nums()).collect())
+    }) }
+}
+fn cases() -> Vec<Case> {
+    let mut v = vec![form_case::<Knot>("Knot".into())];
+    macro_rules! poly { ($($t:ident),*) => {$(
+        v.push(form_case::<$t>(stringify!($t).into()));
+        v.push(form_case::<Log<$t>>(format!("Log<{}>", stringify!($t))));
+        v.push(form_case::<IntOfLog<$t>>(format!("IntOfLog<{}>", stringify!($t))));
+    )*}; }
+    poly!(Poly0, Poly1, Poly2, Poly3, Poly4, Poly5, Poly6, Poly7, Poly8);
+    v.push(form_case::<IntOfLogPoly4>("IntOfLogPoly4".into()));
+    macro_rules! seg { ($($t:ty),*) => {$(
+        v.push(form_case::<Segment<$t>>(format!("Segment<{}>", stringify!($t))));
+        for p in 0..=4 { v.push(pw_case::<$t>(stringify!($t).to_string(), p)); }
+    )*}; }
+    seg!(Poly0, Poly3, Poly8, Log<Poly2>, IntOfLog<Poly1>, IntOfLogPoly4);
+    v
+}
+
+/// all number vectors for a case (deterministic order)
+fn inputs(n: usize, thorough: bool) -> Vec<Vec<f64>> {
+    let a = alphabet();
+    let mut out = vec![];
+    if n == 0 { return vec![vec![]]; }
+    if n <= 3 {
+        let mut idx = vec![0usize; n];
+        loop {
+            out.push(idx.iter().map(|&i| a[i]).collect());
+            let mut p = n;
+            loop {
+                if p == 0 { return out; }
+                p -= 1;
+                idx[p] += 1;
+                if idx[p] < a.len() { break; }
+                idx[p] = 0;
+            }
+        }
+    }
+    for pos in 0..n {
+        for &val in &a {
+            out.push((0..n).map(|i| if i == pos { val } else { BG[i % 4] * (1.0 + (i / 4) as f64) }).collect());
+        }
+    }
+    let cap = n.min(if thorough { 10 } else { 8 });
+    let mut idx = vec![0usize; cap];
+    'o: loop {
+        out.push((0..n).map(|i| if i < cap { CUBE[idx[i]] } else { BG[i % 4] }).collect());
+        let mut p = cap;
+        loop {
+            if p == 0 { break 'o; }
+            p -= 1;
+            idx[p] += 1;
+            if idx[p] < 3 { break; }
+            idx[p] = 0;
+        }
+    }
+    out
+}
+
+fn main() {
+    let args: Vec<String> = std::env::args().collect();
+    if args.len() < 4 { eprintln!("usage: pwborsh C18 <quick|thorough> <partfile> | pwborsh C18 replay <file>"); std::process::exit(2); }
+    silence_panics();
+    let cs = cases();
+    if args[2] == "replay" {
+        let v: Value = serde_json::from_str(&std::fs::read_to_string(&args[3]).unwrap_or_else(|e| machinery(&format!("{e}")))).unwrap_or_else(|e| machinery(&format!("{e}")));
+        let d = &v["detail"];
+        let ty = d["type"].as_str().unwrap_or("");
+        let nums: Vec<f64> = d["numbers"].as_array().map(|a| a.iter().map(|s| { let t = s.as_str().unwrap_or(""); f64::from_bits(u64::from_str_radix(t.rsplit("/0x").next().unwrap_or("0"), 16).unwrap_or(0)) }).collect()).unwrap_or_default();
+        let Some(c) = cs.iter().find(|c| c.ty == ty) else { machinery("replay: unknown type") };
+        let (r1, r2) = ((c.run)(&nums), (c.run)(&nums));
+        if format!("{r1:?}") != format!("{r2:?}") { machinery("replay: two runs differ"); }
+        match r1 {
+            Ok(()) => { println!("replay: property held"); std::process::exit(0) }
+            Err((w, _)) => { println!("replay: {w}"); println!("VIOLATION property=C18 replay={}", args[3]); std::process::exit(1) }
+        }
+    }
+    let thorough = args[2] == "thorough";
+    let t0 = std::time::Instant::now();
+    let (mut states, mut execs, mut nontrivial) = (1u64, 0u64, 0u64);
+    let mut violation: Option<Value> = None;
+    let mut samples = vec![];
+    'outer: for c in &cs {
+        states += 1;
+        for nums in inputs(c.n, thorough) {
+            execs += 1;
+            states += 1;
+            if nums.iter().any(|v| *v == 0.0 || v.is_subnormal() || v.abs() == f64::MAX || v.is_infinite()) { nontrivial += 1; }
+            if samples.len() < 3 && execs % 50021 == 7 { samples.push(json!({"type": c.ty, "numbers": fjs(&nums)})); }
+            if let Err((what, obs)) = (c.run)(&nums) {
+                violation = Some(json!({"what": format!("{}: {}", c.ty, what), "type": c.ty, "numbers": fjs(&nums), "observation": obs}));
+                break 'outer;
+            }
+        }
+    }
+    if samples.is_empty() { samples.push(json!({"type": cs[0].ty, "numbers": fjs(&inputs(cs[0].n, false)[0])})); }
+    let part = json!({
+        "engine": "exhaustive enumeration of number contents per serializable type, subject built with feature borsh; borsh::to_vec / from_slice",
+        "states": states, "transitions": states - 1, "traces_validated_against_impl": execs, "evaluations": execs, "distinct_nontrivial": nontrivial,
+        "types": cs.iter().map(|c| c.ty.clone()).collect::<Vec<_>>(), "exhaustive": violation.is_none(),
+        "bounds": "same number alphabet (incl. +-inf), positions sweeps and cubes as the serde phase; 0..4 segments",
+        "samples": samples, "violation": violation, "wall_s": t0.elapsed().as_secs_f64(),
+    });
+    std::fs::write(&args[3], serde_json::to_string_pretty(&part).unwrap()).unwrap_or_else(|e| machinery(&format!("cannot write part file: {e}")));
+    println!("C18 borsh configuration: types={} round_trips={} violation={}", cs.len(), execs, part["violation"] != Value::Null);
+    std::process::exit(if part["violation"] != Value::Null { 1 } else { 0 });
+}
